@@ -1,3 +1,4 @@
+pub mod dynmodel;
 pub mod fake;
 pub mod model;
 pub mod oracle;
@@ -140,9 +141,15 @@ impl World for AgentWorld {
             lines.extend(rec.log.lines().iter().cloned());
             lines.sort_by_key(|l| l.trim_start().split(' ').next().and_then(|n| n.parse::<u64>().ok()).unwrap_or(0));
         }
-        let mut violations = oracle::check(&rec);
-        violations.extend(oracle::check_persistence(&rec));
-        violations.extend(oracle::check_reporting(&rec));
+        let violations = if sc.knobs.connector {
+            // Lanes opened at run time on a ConnectorAgent: judged against the writing remote's command stream.
+            oracle::check_dynlanes(&rec)
+        } else {
+            let mut v = oracle::check(&rec);
+            v.extend(oracle::check_persistence(&rec));
+            v.extend(oracle::check_reporting(&rec));
+            v
+        };
         let mut out = Outcome {
             violations,
             log_hash: log.hash(),
